@@ -100,7 +100,7 @@ PROPS = {
         "modules": ["top", "prelude", "pb", "inflights", "progress", "quorum", "tracker"],
         "body": ["quorum", "tracker"],
         "modes": ["P"],
-        "claim": "FULL for the arithmetic; the 12-line unsafe collection of the acknowledged indexes into the scratch array and the sort are assumed (R10/R9)",
+        "claim": "FULL for the arithmetic and the heap collection path; the unsafe stack-array fast path for <= 7 voters is assumed to produce the same listing as the (verified) heap path, and sort_by to be a sorted permutation (R10/R9)",
         "decided": [
             "util::majority(n) = n/2+1 (2r > n, 2(r-1) <= n)",
             "MajorityConfig::committed_index: empty => (u64::MAX, true); without group commit the result IS the largest index acknowledged by a "
@@ -113,7 +113,7 @@ PROPS = {
         ],
         "undecided": ["ProgressTracker::{tally_votes counts, record_vote, quorum_recently_active} are not under contract in this revision"],
         "assumptions": [
-            "R10: the unsafe MaybeUninit stack-array / heap Vec fill of committed_index lists ack(v) once per voter (assumed; no back end here can execute it)",
+            "R10: the unsafe MaybeUninit stack-array fill of committed_index (<= 7 voters) yields the same listing as the heap path, which is verified for every size (assumed; no deductive back end here can execute the unsafe code; the replay monitor mon_c11 exercises it on the real crate)",
             "R9: sort_by(descending index) is a sorted permutation",
             "crate::HashSet/HashMap (fxhash) behave like std's with a lawful hasher; vstd's HashSet/HashMap model",
             "voter sets have < 2^32 members",
